@@ -54,6 +54,7 @@ import EsbuildModel.Impl.JsonDriver
 import EsbuildModel.Impl.CssLexDriver
 import EsbuildModel.Impl.StdioAsync
 import EsbuildModel.Impl.StmtPrintDriver
+import EsbuildModel.Impl.InteropWire
 
 open EsbuildModel
 
@@ -118,6 +119,7 @@ def dispatch (kernel : String) (args : List String) : String :=
   | "csslex" => CssLex.driver args
   | "stdioasync" => StdioAsync.driver args
   | "stmtprint" => StmtPrintDriver.driver args
+  | "interop" => Interop.driver args
   | _ => "bad-kernel"
 
 partial def loop (hin hout : IO.FS.Stream) : IO Unit := do
